@@ -203,6 +203,11 @@ let () =
           List [List [Atom "known"; b (Dot.known_rx pool r)]; List [Atom "pinned"; j Dot.pinned];
                 List [Atom "fixed"; j Dot.patched]]
       | _ -> raise (Shape "dotclassregex args"));
+  (* dotwf <dfa> -> true | false : the hypothesis of the C16 theorems *)
+  register "dotwf" (fun v ->
+      match v with
+      | List [d] -> b (Dot.wf_cdfa (cdfa_of d))
+      | _ -> raise (Shape "dotwf args"));
   (* dotsubids <base> <dfa> -> ((poolidx id)...) : the prescribed numbering of the clusters *)
   register "dotsubids" (fun v ->
       match v with
